@@ -7,7 +7,7 @@ pipelines an HTTPServer runs around every pipeline).  Phases (VERIF_PHASES=probe
          and what Close does to Handle
   mc     TLC checks the contract (Consistent, NoFailure, Available, Visibility, Isolation, Settled,
          Configured, Limited, IsolationStep, NoOp) exhaustively for the contract's modes; shows that the
-         invariants are not vacuous (six deliberately wrong knobs must violate them); checks the observed modes -
+         invariants are not vacuous (seven deliberately wrong knobs must violate them); checks the observed modes -
          a violation there is a lead (a schedule), decided by replaying schedules on the real code
   mbt    TLC-generated schedules replayed step by step on the real mux + TrafficController +
          Pipelines + filters (httpserver harness), on the TrafficController (trafficcontroller
@@ -52,7 +52,7 @@ LOCK = threading.Lock()
 
 def cfg(modes, kinds="KindsFull", reqs=2, ops=2, srv=2, pip=2, other=2, same=1, maxreq=1, targets='{"srv","q"}',
         atomic="fine", lps=False, props=True, view=True, srvkinds='{"rules","opts","both"}', ips='{"n","b"}', mc=False,
-        pipkinds='{"both"}', classes='{"n"}', reuse=False, blocking='{"px"}', stale=False):
+        pipkinds='{"both"}', classes='{"n"}', reuse=False, blocking='{"px"}', stale=False, options='{}', staleopts='{}'):
     """cfg text for HotUpdate_MC (mc=True: exhaustive checking, no `out` variable) or HotUpdate_Gen (behaviour generation)"""
     rs = ",".join('"r%d"' % i for i in range(1, reqs + 1))
     t = ("SPECIFICATION %s\nCONSTANTS\n  Reqs = {%s}\n  Routed <- RoutedDef\n  Others = {\"q\"}\n  Kinds <- %s\n" % (
@@ -60,9 +60,10 @@ def cfg(modes, kinds="KindsFull", reqs=2, ops=2, srv=2, pip=2, other=2, same=1, 
     for k in ("InhRl", "ClsRl", "InhPx", "ClsPx"):
         t += '  %s = "%s"\n' % (k, modes[k])
     t += ("  MaxOps = %d\n  MaxSrv = %d\n  MaxPip = %d\n  MaxOther = %d\n  MaxSame = %d\n  MaxReq = %d\n  LoadPerStep = %s\n"
-          "  Targets = %s\n  Blocking = %s\n  SrvKinds = %s\n  IPs = %s\n  PipKinds = %s\n  Classes = %s\n  Reuse = %s\n  Stale = %s\n" % (
+          "  Targets = %s\n  Blocking = %s\n  SrvKinds = %s\n  IPs = %s\n  PipKinds = %s\n  Classes = %s\n  Reuse = %s\n  Stale = %s\n"
+          "  Options = %s\n  StaleOpts = %s\n" % (
               ops, srv, pip, other, same, maxreq, "TRUE" if lps else "FALSE", targets, blocking, srvkinds, ips, pipkinds, classes,
-              "TRUE" if reuse else "FALSE", "TRUE" if stale else "FALSE"))
+              "TRUE" if reuse else "FALSE", "TRUE" if stale else "FALSE", options, staleopts))
     if not mc:
         t += '  Atomic = "%s"\n' % atomic
     if view:
@@ -81,12 +82,19 @@ CONF_SLICE = dict(ops=2, srv=0, pip=2, other=0, same=0, maxreq=1, targets='{"pa"
 DFLT_SLICE = dict(kinds="KindsRl", ops=2, srv=0, pip=2, other=0, same=0, maxreq=1, targets='{"pa"}', ips='{"n"}', srvkinds='{"both"}',
                   pipkinds='{"filters","dflt"}', classes='{"n","d"}')
 
+# the options slice: requests of class "o" go straight to pipeline pa (one Optioned filter: the Proxy) while updates change one option of
+# the filter's spec (or all of them, or the part of the spec nothing observes, or the resilience section only)
+OPTIONS = '{"url","ca","cert","timeout","fcodes","idle"}'     # "idle" (maxIdleConns): an option nothing shows - the others must stay in force
+OPT_KINDS = '{"resil","allopts","url","ca","cert","timeout","fcodes","idle"}'
+OPT_SLICE = dict(kinds="KindsPx", ops=2, srv=0, pip=2, other=0, same=0, maxreq=1, targets='{"pa"}', ips='{"n"}', srvkinds='{"both"}',
+                 pipkinds=OPT_KINDS, classes='{"o"}', options=OPTIONS)
+
 TRACE_CFG = ("SPECIFICATION TSpec\nCONSTANTS\n  Reqs = {\"w0\",\"w1\",\"w2\",\"w3\",\"w4\",\"w5\",\"w6\",\"w7\"}\n  Routed <- RoutedDef\n"
              "  Others = {\"q\"}\n  Kinds <- KindsFull\n  InhRl = \"share\"\n  ClsRl = \"none\"\n  InhPx = \"fresh\"\n  ClsPx = \"stop\"\n"
              "  MaxOps = 100000000\n  MaxSrv = 100000000\n  MaxPip = 100000000\n  MaxOther = 100000000\n  MaxSame = 100000000\n"
              "  MaxReq = 100000000\n  LoadPerStep = FALSE\n  Targets = {\"srv\",\"q\"}\n  Blocking = {\"px\"}\n"
              "  SrvKinds = {\"rules\",\"opts\",\"both\"}\n  IPs = {\"n\",\"b\"}\n"
-             "  PipKinds = {\"both\"}\n  Classes = {\"n\"}\n  Reuse = FALSE\n  Stale = FALSE\n"
+             "  PipKinds = {\"both\"}\n  Classes = {\"n\"}\n  Reuse = FALSE\n  Stale = FALSE\n  Options = {}\n  StaleOpts = {}\n"
              "CONSTRAINT HWM\nPOSTCONDITION Accepted\n"
              "INVARIANTS Consistent NoFailure Available Visibility Isolation Settled TV_NoFailure TV_Consistent TV_NoOp TV_Visibility\n")
 
@@ -124,6 +132,8 @@ def run(ctx):
     if ctx.phase("tv"):
         for v in TV_VARIANTS:
             jobs.append(lambda v=v: _tv_one(ctx, *v))
+    if _sub(ctx, "mbt", "opts"):
+        jobs.append(lambda: _mbt_opts(ctx, modes))
     for sub, job in (("gf", lambda: _mbt_gf(ctx)), ("tc", lambda: _mbt_tc(ctx)), ("rl", lambda: _mbt_filter(ctx, modes, "rl")),
                      ("px", lambda: _mbt_filter(ctx, modes, "px"))):
         if _sub(ctx, "mbt", sub):
@@ -203,8 +213,11 @@ def _mc(ctx, modes):
     r4 = ctx.tlc_mc(M, cfg(CONTRACT_MODES, mc=True, **(DFLT_SLICE if ctx.quick else dict(DFLT_SLICE, ops=3, pip=3, maxreq=2))),
                     label="contract, default-policy slice: 2 requests (classes n/d) x pipeline updates that switch / keep the default policy of the limiter",
                     timeout=600 if ctx.quick else 1500)
-    ctx.log("contract model checked: %d + %d + %d + %d distinct states, depth %d / %d / %d / %d" % (
-        r.distinct, r2.distinct, r3.distinct, r4.distinct, r.depth, r2.depth, r3.depth, r4.depth))
+    r5 = ctx.tlc_mc(M, cfg(CONTRACT_MODES, mc=True, **(OPT_SLICE if ctx.quick else dict(OPT_SLICE, ops=3, pip=3, targets='{"pa","pb"}'))),
+                    label="contract, options slice: 2 requests (class o) x pipeline updates that change one option of the Proxy / all / none of them",
+                    timeout=600 if ctx.quick else 1500)
+    ctx.log("contract model checked: %d + %d + %d + %d + %d distinct states, depth %d / %d / %d / %d / %d" % (
+        r.distinct, r2.distinct, r3.distinct, r4.distinct, r5.distinct, r.depth, r2.depth, r3.depth, r4.depth, r5.depth))
     # the invariants are not vacuous: deliberately wrong implementation knobs must break them
     for label, c, want in (("knob: every step re-reads m.inst", cfg(CONTRACT_MODES, ops=1, maxreq=1, lps=True, mc=True), "Consistent"),
                            ("knob: Inherit moves the cell away (RateLimiter.reload at the pin)",
@@ -215,7 +228,9 @@ def _mc(ctx, modes):
                            ("knob: Close of the previous generation disables the limiter the new one shares",
                             cfg(dict(CONTRACT_MODES, ClsRl="disable"), mc=True, **CONF_SLICE), "Limited"),
                            ("knob: Inherit keeps the limiter of a URL rule although the default policy the rule falls under was switched",
-                            cfg(CONTRACT_MODES, mc=True, stale=True, **DFLT_SLICE), "Configured")):
+                            cfg(CONTRACT_MODES, mc=True, stale=True, **DFLT_SLICE), "Configured"),
+                           ("knob: Inherit takes over what one option of the filter configures (the comparison 'nothing relevant changed' forgets that option)",
+                            cfg(CONTRACT_MODES, mc=True, staleopts='{"ca"}', **OPT_SLICE), "Configured")):
         k = ctx.tlc_mc(M, c, expect_ok=False, count=False, label=label, timeout=300)
         if k.ok or k.violated != want:
             ctx.inconclusive("HotUpdate: %s should violate %s but TLC says ok=%s violated=%s" % (label, want, k.ok, k.violated))
@@ -475,6 +490,58 @@ def _mbt_kinds(ctx, modes):
         ctx.inconclusive("C11 pipeline sweep: the kinds that show the configuration of a generation (RateLimiter, Proxy/resilience) were not both replayed")
     ctx.log("pipeline: %d kinds x %d schedules, %d steps replayed; not built offline: %s" % (
         len([x for x in kinds if x.get("built")]), len(behs), total, sorted(x["kind"] for x in kinds if not x.get("built"))))
+
+
+# ------------------------------------------------------------------------------------------ options of the Proxy
+OPT_NAMES = ("url", "ca", "cert", "timeout", "fcodes", "idle")
+
+
+def _opt_cover(behs):
+    """per option: class "o" requests handled by a generation that is not closed and whose update chain has changed that option,
+    counted separately for generations produced by an update that changed *only* that option"""
+    anyc, only = dict.fromkeys(OPT_NAMES, 0), dict.fromkeys(OPT_NAMES, 0)
+    for b in behs:
+        kind_of = {}     # (pipeline, version) -> kind of the update that produced the generation
+        for s in b:
+            if s.get("a") == "pipBegin":
+                kind_of[(s["p"], s["ver"])] = s.get("kind")
+            if s.get("a") == "run" and s.get("cl") == "o" and s.get("res") == "pass" and not s.get("closed") and s.get("ver", 0) > 1:
+                for o in OPT_NAMES:
+                    anyc[o] += s.get("opt", {}).get(o, 1) > 1
+                k = kind_of.get((_pipe_of(b, s), s["ver"]))
+                if k in only:
+                    only[k] += 1
+    return anyc, only
+
+
+def _mbt_opts(ctx, modes):
+    """schedules of the options slice replayed on real one-Proxy pipelines that talk mTLS to an HTTPS backend: each class "o"
+    request shows the options (server url, root CA, client certificate, timeout, failure codes) its backend call was made under"""
+    n = 100 if ctx.quick else 1000
+    c = cfg(modes, kinds="KindsPx", ops=5, srv=0, pip=5, other=0, same=0, maxreq=3, targets='{"pa"}', atomic="coarse", props=False, view=False,
+            blocking="{}", pipkinds=OPT_KINDS, classes='{"o"}', options=OPTIONS)
+    behs, p = _behaviours(ctx, c, n, 40, "opts")
+    anyc, only = _opt_cover(behs)
+    ctx.log("Proxy options: %d schedules; class o requests on a live generation after an update of the option alone: %s" % (len(behs), jdump(only)))
+    if min(only.values()) < (4 if ctx.quick else 30):
+        ctx.inconclusive("C11 Proxy options: the schedules hardly show generations produced by an update of a single option: %s" % jdump(only))
+    outp = ctx.path("c11_replay_opts.ndjson")
+    rc, out = ctx.go_test(P_PIPE, "^TestVerifC11PxOptions$", env={"VERIF_IN": p, "VERIF_OUT": outp}, timeout=1500)
+    recs = ctx.read_ndjson(outp)
+    if rc != 0:
+        ctx.inconclusive("C11 pipeline (Proxy options) replay harness failed:\n" + out[-3000:])
+    summ = [x for x in recs if x.get("k") == "summary"]
+    if summ and not summ[0].get("built"):
+        ctx.inconclusive("C11 pipeline (Proxy options): %s" % summ[0].get("why"))
+    s = _judge(ctx, "pipeline/Proxy/options", behs, recs, out, filt="Proxy")
+    ctx.sample({"kind": "tlc-schedule (one-Proxy pipeline, updates of single options, mTLS backend)",
+                "steps": [{k: v for k, v in x.items() if k != "nsv"} for x in behs[0][:10]]})
+    ctx.log("pipeline/Proxy/options: %d schedules, %d steps replayed, %d class o requests judged against the options of the held generation "
+            "(per option changed by an update: %s; challenges: %s), %d not judged (closed generation / timeout of 100ms struck)" % (
+                s["behaviours"], s["steps"], s["judged"], jdump(s.get("perOption")), jdump(s.get("challenges")), s["unjudged"]))
+    if not [x for x in recs if x.get("k") in ("mismatch", "fail")]:
+        if s["judged"] < len(behs) or min((s.get("perOption") or {}).get(o, 0) for o in OPT_NAMES) < (4 if ctx.quick else 30):
+            ctx.inconclusive("C11 pipeline/Proxy/options: only %d class o requests judged in %d schedules (%s)" % (s["judged"], len(behs), jdump(s.get("perOption"))))
 
 
 # ------------------------------------------------------------------------------------------ GlobalFilter
